@@ -194,6 +194,9 @@ MODEL_BOOKS = [
          names={'STAMP': 'NOW()', 'DRAW': 'RAND()', 'VAT': '0.2', 'FIVE': 'S!$A$4'}),
     dict(cells={'A1': '=IF(TRUE,NOW(),0)', 'B1': '=SUM(1,A1)', 'A2': '=RANDBETWEEN(1,1000000)', 'B2': '=A2+0', 'C2': '=A2'},
          names={}),
+    # formulas that mix an (unchanged) referenced value with a volatile call
+    dict(cells={'A4': 3, 'D1': '=A4+NOW()', 'D2': '=IF(A4>1,TODAY()+A4,0)', 'D3': '=RANDBETWEEN(1,A4*1000000)', 'D4': '=A4*RAND()', 'D5': '=A4*2'},
+         names={}),
 ]
 
 
@@ -292,7 +295,7 @@ def _check_model(case):
 
 BOUNDED = [
     Stage('B2:loaded-copied-and-reimported-workbooks-recalculate-volatile-cells', 'C13', _model_cases, _check_model,
-          '3 workbooks (volatile cells and dependents, defined names whose formula is volatile / constant / a cell, nested volatile calls) '
+          '4 workbooks (volatile cells and dependents, formulas mixing a constant reference with a volatile call, defined names whose formula is volatile / constant / a cell, nested volatile calls) '
           'x 3 ways of obtaining the model (loaded from file, deep copy, JSON re-import), each calculated 3 times with the clock / random '
           'source advanced', parallel=False),
     Stage('B1:compiled-formula-re-evaluates-volatile-calls', 'C13', _fresh_cases, _check_fresh,
@@ -311,7 +314,7 @@ PROPERTIES = {
             'deep-copied and re-imported from JSON (volatile cells, dependents, volatile / constant / cell-valued defined names) recalculate '
             'every volatile cell and dependent on each calculation, with one value per calculation.'),
         assumptions=['0 <= np.random.rand() < 1', 'schedula treats a NONE output as not produced and keeps such nodes out of the pruned graph (assumed)'],
-        not_proved=['never frozen through ExcelModel load / copy / JSON import, one snapshot per calculation: rest on schedula - bounded stage B2 only (3 workbooks x 3 ways of obtaining the model)'],
+        not_proved=['never frozen through ExcelModel load / copy / JSON import, one snapshot per calculation: rest on schedula - bounded stage B2 only (4 workbooks x 3 ways of obtaining the model)'],
     ),
 }
 
@@ -345,3 +348,41 @@ def _(result):
 @c_today.canary('canary:a-fixed-day')
 def _(result):
     return result == 47484
+
+
+# ------------------------------------------------------------------------------------ a formula cell is evaluated afresh on every call
+from pyvc.contract import ObjT as _ObjT, TupleT as _TupleT
+
+
+def _ident_args(*a):
+    return a
+
+
+def _ident_kwargs(**kw):
+    return kw
+
+
+def lemma_cell_called_twice(cell, a):
+    """The same cell wrapper called twice with the very same argument (an unchanged referenced value)."""
+    first = cell(a)
+    second = cell(a)
+    return first, second
+
+
+c_twice = Contract(lambda: lemma_cell_called_twice,
+                   dict(cell=_ObjT('formulas.cell:CellWrapper', {'func': FnT([]), 'parse_args': ConstT(_ident_args),
+                                                                 'parse_kwargs': ConstT(_ident_kwargs)}),
+                        a=OpaqueT()), 'C13', name='lemma:CellWrapper-evaluates-its-formula-on-every-call', use=[], frame=('cell',))
+CONTRACTS.append(c_twice)
+c_twice.no_native = True
+
+
+@c_twice.ensures('no-result-is-kept-between-calls-with-unchanged-inputs', 'P')
+def _(cell, a, result):
+    # the compiled formula (which may contain NOW / RAND at any depth) runs once per call and each call returns its own result
+    return n_calls(cell.func) == 2 and returned_by(result[0], cell.func, 0) and returned_by(result[1], cell.func, 1)
+
+
+@c_twice.canary('canary:second-call-answered-from-memory')
+def _(cell, a, result):
+    return n_calls(cell.func) == 1
